@@ -53,7 +53,14 @@ Proposer(r) == ProposerSeq[r + 1]
 \* height the block time is the genesis time and the mempool is empty, so the block depends
 \* on the proposer only)
 FreshValue(n) == "B" \o n
-Valid(v) == v \notin InvalidValues
+\* Block identity.  A vote, a proposal and a part set carry a BlockID = (block hash, part-set header); the values of this
+\* spec are names of BlockIDs.  The same block can be cut into parts in more than one way (protobuf encodings are not
+\* unique: an unknown trailing field decodes to the same block), so two BlockIDs can share the hash: "Z0~" / "Z1~" name a
+\* second encoding of the blocks Z0 / Z1.  Canon(v) is the name of the BLOCK (its hash).  The operators below compare with
+\* SameBlock where the code calls Block.HashesTo(blockID.Hash) and with = where it compares BlockIDs / part-set headers.
+Canon(v) == IF v = "Z0~" THEN "Z0" ELSE IF v = "Z1~" THEN "Z1" ELSE v
+SameBlock(a, b) == Canon(a) = Canon(b)
+Valid(v) == Canon(v) \notin InvalidValues
 
 \* ------------------------------------------------------------------ vote sets (types/vote_set.go)
 \* votes : the primary vote per validator (VoteSet.votes)            -- what is gossiped / put in a commit
@@ -134,10 +141,13 @@ ProposalComplete(s) ==
 TryFinalizeCommit(s) ==
   LET maj == Maj23(s.pc[s.commitR]) IN
   IF maj = None \/ maj = Nil THEN s
-  ELSE IF s.propBlock # maj THEN s
+  ELSE IF s.propBlock = Nil \/ ~SameBlock(s.propBlock, maj) THEN s
+  \* finalizeCommit: "expected ProposalBlockParts header to be commit header" — the block is stored under the header of
+  \* the part set it was assembled from, which must be the one the precommits are for
+  ELSE IF s.partsHdr # maj /\ ~W("CommitIgnoresPartsHeader") THEN Panic(s, "parts header differs from commit header")
   ELSE IF ~Valid(maj) /\ ~W("CommitSkipsValidate") THEN Panic(s, "committed an invalid block")
   ELSE \* SaveBlock, WAL end-height, ApplyBlock, updateToState (height+1, round 0, NewHeight), scheduleRound0
-       Sched([s EXCEPT !.decision = maj, !.lastCommit = [r |-> s.commitR, votes |-> s.pc[s.commitR].votes], !.height = 2, !.round = 0, !.step = StNewHeight,
+       Sched([s EXCEPT !.decision = s.partsHdr, !.lastCommit = [r |-> s.commitR, votes |-> s.pc[s.commitR].votes], !.height = 2, !.round = 0, !.step = StNewHeight,
                        !.prop = NoProp, !.propBlock = Nil, !.partsHdr = Nil,
                        !.lockedR = -1, !.lockedV = Nil, !.validR = -1, !.validV = Nil,
                        !.ttp = FALSE, !.commitR = -1,
@@ -150,9 +160,9 @@ EnterCommit(s, cr) ==
   IF Dead(s) \/ s.height # 1 \/ StCommit <= s.step THEN s ELSE
   LET maj == Maj23(s.pc[cr]) IN
   IF maj = None THEN Panic(s, "enterCommit without +2/3 precommits") ELSE
-  LET s1 == IF s.lockedV # Nil /\ s.lockedV = maj
+  LET s1 == IF s.lockedV # Nil /\ SameBlock(s.lockedV, maj)
             THEN [s EXCEPT !.propBlock = s.lockedV, !.partsHdr = s.lockedV] ELSE s
-      s2 == IF s1.propBlock # maj /\ s1.partsHdr # maj
+      s2 == IF (s1.propBlock = Nil \/ ~SameBlock(s1.propBlock, maj)) /\ s1.partsHdr # maj
             THEN [s1 EXCEPT !.propBlock = Nil, !.partsHdr = maj] ELSE s1
       s3 == [s2 EXCEPT !.step = StCommit, !.commitR = cr]
   IN TryFinalizeCommit(s3)
@@ -173,10 +183,10 @@ EnterPrecommit(s, r) ==
         THEN fin([s EXCEPT !.lockedR = r, !.lockedV = s.propBlock], s.propBlock)
         ELSE fin(s, Nil)
      ELSE IF maj = Nil THEN fin(Unlock(s), Nil)
-     ELSE IF s.lockedV = maj THEN fin(IF W("RelockKeepsRound") THEN s ELSE [s EXCEPT !.lockedR = r], maj)
-     ELSE IF s.propBlock = maj THEN
+     ELSE IF s.lockedV # Nil /\ SameBlock(s.lockedV, maj) THEN fin(IF W("RelockKeepsRound") THEN s ELSE [s EXCEPT !.lockedR = r], maj)
+     ELSE IF s.propBlock # Nil /\ SameBlock(s.propBlock, maj) THEN
         IF ~Valid(maj) THEN Panic(s, "+2/3 prevoted for an invalid block")
-        ELSE fin([s EXCEPT !.lockedR = r, !.lockedV = maj], maj)
+        ELSE fin([s EXCEPT !.lockedR = r, !.lockedV = s.propBlock], maj)      \* LockedBlock(Parts) = ProposalBlock(Parts); the precommit is for the polka's BlockID
      ELSE IF W("PrecommitUnheldBlock") THEN fin([s EXCEPT !.lockedR = r, !.lockedV = maj], maj)
      ELSE LET u == Unlock(s)
               w == IF u.partsHdr # maj THEN [u EXCEPT !.propBlock = Nil, !.partsHdr = maj] ELSE u
@@ -239,8 +249,8 @@ HandleProposal(s, src, p) ==
 HandleCompleteProposal(s) ==
   LET maj == Maj23(s.pv[s.round])
       has == maj # None
-      s1  == IF has /\ maj # Nil /\ s.validR < s.round /\ s.propBlock = maj
-             THEN [s EXCEPT !.validR = s.round, !.validV = maj] ELSE s
+      s1  == IF has /\ maj # Nil /\ s.validR < s.round /\ s.propBlock # Nil /\ SameBlock(s.propBlock, maj)
+             THEN [s EXCEPT !.validR = s.round, !.validV = s.propBlock] ELSE s
   IN IF s1.step <= StPropose /\ ProposalComplete(s1)
      THEN LET a == EnterPrevote(s1, s1.round) IN IF has THEN EnterPrecommit(a, a.round) ELSE a
      ELSE IF s1.step = StCommit THEN TryFinalizeCommit(s1) ELSE s1
@@ -274,10 +284,10 @@ AfterPrevote(me, s, vr) ==
       s2 == IF maj = None THEN s ELSE
             LET u == IF s.lockedV # Nil
                         /\ (IF W("UnlockOnOlderPolka") THEN TRUE ELSE s.lockedR < vr)
-                        /\ vr <= s.round /\ s.lockedV # maj
+                        /\ vr <= s.round /\ ~SameBlock(s.lockedV, maj)
                      THEN Unlock(s) ELSE s
             IN IF maj # Nil /\ u.validR < vr /\ vr = u.round
-               THEN LET w == IF u.propBlock = maj THEN [u EXCEPT !.validR = vr, !.validV = maj]
+               THEN LET w == IF u.propBlock # Nil /\ SameBlock(u.propBlock, maj) THEN [u EXCEPT !.validR = vr, !.validV = u.propBlock]
                                            ELSE [u EXCEPT !.propBlock = Nil]
                     IN IF w.partsHdr # maj THEN [w EXCEPT !.partsHdr = maj] ELSE w
                ELSE u
